@@ -4,7 +4,9 @@ Decides (exact for all 2^32 mask values and all valid (t, basebit), by bit-field
 tile the top t*basebit bits; R2 the rounding offset is half of the least significant kept bit; R3 the key
 generator encrypts h*s_i*2^(shift_j) with the same weight expression the consumer's digit position has, and the
 zero digit is skipped consistently with a trivial zero row; R4 result = (0,b) minus the selected rows over
-all i < n, j < t; R5 the 3-level row table addresses ks0_raw[(i*t+j)*base+h] with extent n*t*base.
+all i < n, j < t; R5 the 3-level row table addresses ks0_raw[(i*t+j)*base+h] with extent n*t*base; R6 the row operation
+lweSubTo is result -= row on b and on every mask coefficient for every target dimension (C14's rules for that operation,
+including the strip-mined AVX2 kernel with its 4/2/1 tails).
 Not decided: the statistical part with a noisy key.
 """
 from sa import bits, summ, sym
@@ -35,6 +37,8 @@ def run(chk):
     for v in prog.variants():
         vn = v.name
         chk.analysed["variants"] = chk.analysed.get("variants", 0) + 1
+        from rules import c04, c14
+        c14.check_lwe_op(c04._Sub(chk, "R6"), v, "lweSubTo", c14.LWE_OPS["lweSubTo"])
         f = v.fn("lweKeySwitchTranslate_fromArray")
         ps, _ = summ.pieces(v, f, hooks=NOINLINE)
         res, ks, params, ai, n, t, basebit = [p["n"] for p in f.params]
